@@ -422,8 +422,8 @@ def execute(case, keep_text=False):
         """The tables a built model offers are the union of what each of its
         components - and the model object itself - declares (an independent
         walk over the components, not the model's own collector)."""
-        comps = [model, model._planet, model._star, model.pressure,
-                 model._temperature_profile, model._chemistry] + \
+        comps = [model, model.planet, model.star, model.pressure,
+                 model.temperature, model.chemistry] + \
             list(model.contribution_list)
         for what, meth, have in (
                 ('fit', 'fitting_parameters', model.fittingParameters),
